@@ -138,6 +138,15 @@ CHECKS = {
         "Reference subprocesses evaluate up to six probes each; a defect that affects a fresh interpreter identically (e.g. import-time binding) is only visible through the direction model check.",
         "DESIGN.md section 4 C15",
     ),
+    "C17": (
+        "seeded Hypothesis generation of lists x key strings + exhaustive enumeration of key strings; reference model = successive stable sorts",
+        "Lists of Tract / TRS elements over a small value space (ties, mixed directions, error and undefined components, repeated instances, "
+        "shuffled creation order) are sorted with generated key strings through custom_sort, sort() and PLSSDesc.sort_tracts and compared, "
+        "instance by instance, with a reference model; every single key (quick) and every pair of keys (thorough) is enumerated on a fixed "
+        "pool; invalid keys must raise ValueError.",
+        "Key rejection is asserted only for keys without any variable letter and for a direction of the other variable (DESIGN 6.8).",
+        "DESIGN.md section 4 C17",
+    ),
 }
 
 NOT_BUILT = {}
